@@ -180,6 +180,8 @@ def run(ctx, rep):
     expect = {'U53': ('u64', '"u64"', 0, MAX_SAFE), 'I54': ('i64', '"i64"', -MAX_SAFE, MAX_SAFE)}
     for i in inv:
         args = [a.strip() for a in split_args(i['tokens'])]
+        # doc comments / attributes may be passed in front of the type name (`truncated_type!(#[doc = ".."] U53, u64, ..)`)
+        args[0] = re.sub(r'^(?:#\s*!?\s*\[(?:[^\[\]]|\[[^\]]*\])*\]\s*)+', '', args[0]).strip()
         name = args[0]
         isite = {'file': i['file'], 'line': i['line']}
         if name not in expect:
